@@ -18,6 +18,13 @@ fresh directory under /var/tmp with sentinels next to the root, odd ids = its me
       disk = mem = flat reference, results step by step and full trees after every call (ReadDir as a set);
       outside `Pre` no panic, no change outside the addressed paths, host above the root byte-identical.
 
+Structural tie (every run, DESIGN 1.4): `harness/cmd/fsfacts facts C02` (go/ast) rewrites
+lean/Goat/Tie/ExtractedFSC02.lean from the sources under test — the path discipline and the host calls of every
+method of diskfs.Filespace, the flag sets of its os.OpenFile calls, FileHandler.Close, disk.Copy / CopyDirectory /
+CopyFile / IsExist / IsDir / IsFile / MkdirAll, ReduceAbsPath — and the theorems `tie_*` of lean/Goat/Tie/FSC02.lean
+compare them by `decide` with the steps Model/DiskFS.lean mirrors.  They are obligations of the check: a failing
+one is followed by the search below and ends as `no-failing-input-found` when nothing concrete turns up.
+
 A difference found by (c), or a difference of (b) that (c)'s judge confirms on the minimised history, is a
 counterexample to the property (`impl-vs-spec`); a difference of (b) that the judge does not confirm is
 reported as `impl-vs-model … no-failing-input-found`.
@@ -28,6 +35,7 @@ import json
 import os
 import subprocess
 
+import fs_tie
 import lib
 
 META = dict(
@@ -40,18 +48,28 @@ META = dict(
              "model and the disk model produce the same results and equal trees, also behind child views "
              "(mem_disk_agree); no call panics, every call changes only addressed paths, and nothing outside the "
              "root directory of the host changes (no_panic, disk_fail_clean, host_confined); outside Pre calls "
-             "are refused except in four listed tolerated classes (disk_refused_outside_pre_partial).",
+             "are refused except in four listed tolerated classes (disk_refused_outside_pre_partial).  The model "
+             "is tied to /repo on every run by the differential and by a structural tie: go/ast normal forms of every "
+             "method of diskfs.Filespace (each path argument reduced first and the error returned; the host call made "
+             "on root+reduced; Writer's O_WRONLY|O_CREATE|O_TRUNC; WriteFile = MkdirAll(dir) then write; Remove/"
+             "RemoveAll refuse the root) and of disk.Copy/CopyDirectory (walk collected before the first copy)/CopyFile, "
+             "regenerated from the sources and compared with the model's steps by `decide` "
+             "(lean/Goat/Tie/FSC02.lean, theorems tie_*).",
         design_ref="DESIGN.md 3 C02"),
     level_note="PARTIAL: that the Linux file system behaves like the modelled host (os.MkdirAll, OpenFile flags, "
                "ioutil.ReadDir, os.Remove/RemoveAll, Stat/Lstat, filepath.Walk order, trailing-slash rules) is an "
                "ASSUMPTION validated by the differential on every run, not a theorem; so is the correspondence of "
-               "the hand-written model to /repo. Names with NUL bytes, names longer than 255 bytes, paths beyond "
+               "the hand-written model to /repo, which is checked (a) by that differential and (b) by the structural "
+               "tie lean/Goat/Tie/FSC02.lean — SYNTACTIC: go/ast normal forms of the methods of diskfs.Filespace and of "
+               "the helpers in filesystem/disk compared by `decide` with the steps the model mirrors, trusted as a "
+               "reading of the text of those functions, blind to what os/ioutil/filepath do. Names with NUL bytes, names longer than 255 bytes, paths beyond "
                "PATH_MAX, permissions, links and a full disk are outside the model and are not generated. The "
                "moment at which a Reader reports io.EOF (with the last bytes in memory, with the next empty read on "
                "disk) is left open by io.Reader and is not compared. Trusted: Lean kernel (axioms "
                "propext/Classical.choice/Quot.sound only), the harness, the flat Go reference used by the oracle.",
     technique="Lean 4 proof (refinement of a host-level model to the point-wise spec under Pre, induction over "
-              "histories, simulation with the C01 memory model) + three-way differential correspondence "
+              "histories, simulation with the C01 memory model) + structural tie (go/ast normal forms of diskfs/disk "
+              "vs hand-written expectations, `decide`) + three-way differential correspondence "
               "(real diskfs / real memfs / compiled Lean models) + property oracle on the implementation alone",
 )
 
@@ -292,10 +310,11 @@ def run(ctx):
         _run(ctx)
     finally:
         _rmtree(ctx.c02_scratch)
+        fs_tie.restore(ctx)   # a run against a scratch worktree leaves the extracted facts of /repo behind
 
 
 def _run(ctx):
-    failed = ctx.lean_obligations()
+    failed = fs_tie.obligations(ctx)   # Props/C02 + the structural tie Goat.Tie.FSC02 (regenerated from ctx.repo)
     go = ctx.build_go("disk")
     model = ctx.build_model("m_disk")
     n_gen = ctx.pick(2400, 40000)
@@ -439,7 +458,7 @@ def _run(ctx):
     if failed:
         ctx.obligation_violations(failed, searcher=lambda: concrete)
     if not ctx.quick():
-        ctx.leanchecker(["Goat.Props.C02"])
+        ctx.leanchecker(["Goat.Props.C02", fs_tie.tie_module(ctx)])
         if any(not o["ok"] for o in ctx.obligations) and not failed:
             ctx.obligation_violations([o for o in ctx.obligations if not o["ok"]])
 
